@@ -76,7 +76,7 @@ def gen_extra(rng, decls):
 
 
 def gen_conditions(rng, g, n=None):
-    names = ["C1", "C2", "IsProd", "é", "C5", "C6", "C7", "C8"]
+    names = ["C1", "C2", "IsProd", "é", "C5", "C6", "True", "FALSE"]
     k = rng.randint(0, 4) if n is None else n
     chosen = rng.sample(names, k)
     conds = {}
@@ -95,7 +95,7 @@ def gen_condition_template(rng, n):
         tenv.params[p] = "x"
     g = ExprGen(rng, tenv)
     decls = gen_parameters(rng, tenv) if rng.random() < 0.5 else {}
-    names = rng.sample(["C1", "C2", "IsProd", "é", "C5", "C6", "C7", "C8"], n)
+    names = rng.sample(["C1", "C2", "IsProd", "é", "C5", "C6", "True", "FALSE"], n)
     for c in names:
         tenv.conds[c] = True
 
